@@ -1,5 +1,5 @@
 """Per-property check functions (imported by ./check)."""
-import json, os, sys
+import json, os, sys, shutil
 import __main__ as M
 
 REGISTRY = {}
@@ -318,6 +318,43 @@ ES_DEVS = [
 MON_EIO_CFG = 'SPECIFICATION Spec\nCONSTANT TraceFile = "trace.ndjson"\nCHECK_DEADLOCK FALSE\n'
 
 
+# transition cover: every transition of a bounded instance of EioSession.tla is replayed into the real server, and after
+# every step the projection of the model state is compared with the real session (tools/tcover.py, EioMon "model.expect")
+ES_COVER = {
+    # family: (quick instance, thorough instance) = (Msgs, CliMsgs, MaxPolls, MaxPings, Features)
+    "flow": (("{1,2}", "{7}", 3, 0, '{"upgrade","window","dwindow","lastonly"}'),
+             ("{1,2}", "{7}", 4, 0, '{"upgrade","window","dwindow","lastonly"}')),
+    "life": (("{1}", "{7}", 2, 1, '{"close","peer","heartbeat","overlap","closewin","lastonly"}'),
+             ("{1,2}", "{7}", 3, 1, '{"close","peer","heartbeat","overlap","closewin","lastonly"}')),
+    "upg": (("{1}", "{}", 2, 0, '{"upgrade","close","window","late","closewin","lastonly"}'),
+            ("{1}", "{7}", 3, 1, '{"upgrade","close","window","late","closewin","heartbeat","lastonly"}')),
+    "poll": (("{1}", "{}", 3, 0, '{"overlap","peer","close","abort","window","dwindow","lastonly"}'),
+             ("{1,2}", "{7}", 3, 0, '{"overlap","peer","close","abort","window","dwindow","lastonly"}')),
+}
+
+
+def es_cover(ctx, fam):
+    c = ES_COVER[fam][0 if ctx.quick else 1]
+    d = M.tlc_dir(ctx, "g_" + fam)
+    cfg = es_cfg(*c, inv="TypeOK", props=False).replace("VIEW view\n", "")
+    M.write_cfg(d, "g", cfg)
+    rc, out = M.sh(["tlc", "-workers", "8", "-metadir", os.path.join(d, "meta"), "-dump", "dot,actionlabels", os.path.join(d, "graph"),
+                    "-config", "g.cfg", "EioSession.tla"], cwd=d, timeout=2400)
+    if rc == 124 or "Model checking completed. No error" not in out:
+        raise M.Inconclusive("state graph dump for the transition cover of %s failed (see %s)" % (fam, d))
+    outp = os.path.join(ctx.work, "cover_%s.json" % fam)
+    rc, o2 = M.sh([sys.executable, os.path.join(M.ROOT, "tools", "tcover.py"), os.path.join(d, "graph.dot"), outp, "45"], timeout=2400)
+    if rc != 0:
+        raise M.Inconclusive("tcover failed for %s: %s" % (fam, o2[-500:]))
+    info = json.loads(o2.strip().splitlines()[-1])
+    os.remove(os.path.join(d, "graph.dot"))
+    shutil.rmtree(os.path.join(d, "meta"), ignore_errors=True)
+    ctx.extra.setdefault("transition_cover", {})[fam] = info
+    ctx.states += info["states"]
+    ctx.transitions += info["transitions"]
+    return json.load(open(outp))
+
+
 def es_sensitivity(ctx):
     """Deviations: the behaviours the code had (or a regression would bring back) must violate their invariant in the model."""
     out = {}
@@ -351,7 +388,7 @@ def eng_run(ctx, fams, nrandom_q=60, nrandom_t=900, extra_fams=()):
         behs = M.tlc_simulate(ctx, "EioSession", es_cfg(*c, inv="Emit").replace("VIEW view\n", ""), "sim_" + fam,
                               num=6 if q else 60, depth=32, seed=ctx.seed, cap=120 if q else 2500)
         # the counterexamples of the deviations are schedules on which a regression would show: replay them as well
-        behs = list(getattr(ctx, "devbehs", [])) + behs
+        behs = list(getattr(ctx, "devbehs", [])) + behs + es_cover(ctx, fam)
         ctx.extra["behaviours_replayed"] = ctx.extra.get("behaviours_replayed", 0) + len(behs)
         trace, summ = M.go_family(ctx, fam, behaviours=behs, nrandom=nrandom_q if q else nrandom_t, timeout=3000)
         v, lines = M.tlc_trace(ctx, "EioMon", MON_EIO_CFG, fam, trace, timeout=3000)
